@@ -836,6 +836,25 @@ class Engine:
                 if nm in ("for_each", "try_for_each") and len(args) == 2 and self._closure_is_local(st, args[1]):
                     yield from self.fused_consumer(nm, frame, st, args, depth, site)
                     return
+                elif nm == "fold" and len(args) == 3 and self._closure_is_local(st, args[2]):
+                    # `it.fold(init, |acc, x| ..)`: one loop-body row per closure path with an unknown accumulator; the result is an
+                    # unknown value of the accumulator
+                    acc = ("loopvar", (0, "fused-fold:%s:%s" % site, 0), args[1])
+                    if not self.in_discovery and hasattr(self, "callee_backedges"):
+                        sb = st.fork()
+                        sb.events.append(("loop", frame["fn"]["id"], "fused", ()))
+                        for s1, e in self.iter_elements(sb, args[0], depth, site):
+                            if e is ITER_END:
+                                continue
+                            if e is ITER_SKIP:
+                                self.callee_backedges.append((s1, site))
+                                continue
+                            for s2, r in call_closure(self, s1, args[2], [acc, e], depth, site):
+                                if r is not PANIC:
+                                    s2.events.append(("fused-body-result", "fold", r))
+                                    self.callee_backedges.append((s2, site))
+                    yield st, acc
+                    return
                 elif nm == "collect" and len(args) == 1 and self.is_pipeline(self.pipeline_of(st, args[0])) and not self.in_discovery \
                         and hasattr(self, "callee_backedges"):
                     # the items a `collect()` receives, one loop-body row per pipeline path (the collection itself stays opaque)
